@@ -1,0 +1,27 @@
+//go:build verif
+
+// Contract for the size checks of the fflonk batch verifier of this curve (comment-only; installed by /verif/gcv
+// gen-contracts). The proof comes from the wire, so every size the verifier relies on must be one it checked: step 0
+// of BatchVerify is total on every proof and every list of point sets (each index it uses is below a length it has
+// compared: obligations), and it lets through only proofs with one non-empty pack of claimed values and one folded
+// opening per point set. The analysis stops where step 1 begins (+ stop): the folding relation and the embedded
+// shplonk verification are not under contract, and the vectors (slices of slices of slices) are not modelled beyond
+// "the same cell read twice holds the same value", which is why the sizes established in step 0 cannot be carried
+// into the loops of step 1 and 2.
+
+package fflonk
+
+//@ func BatchVerify
+//@ layer ring fr.Element
+//@ option opaque-calls
+//@ option nomerge
+//@ loop 0
+//@ + invariant[packs] 0 <= i && i <= len(points) && len(proof.ClaimedValues) == len(points) && len(proof.SOpeningProof.ClaimedValues) == len(points)
+//@ loop 1
+//@ + invariant[polynomials] 1 <= j
+//@ cut before call getIthRootOne #1
+//@ + invariant[sizes-checked] len(proof.ClaimedValues) == len(points) && len(proof.SOpeningProof.ClaimedValues) == len(points)
+//@ + stop
+//@ option never-returns
+//@ modifies nothing
+//@ end
